@@ -70,6 +70,12 @@ def _sink_ok(prog: Program, resolver: Resolver, fi: FuncInfo, n: ast.AST, depth:
         return True, "HyperTuner ranking (C19 decides its polarity)"
     if _in_debug_block(n):
         return True, "debug print"
+    for a_ in ancestors(n):
+        if isinstance(a_, ast.stmt):
+            if isinstance(a_, ast.Expr) and isinstance(a_.value, ast.Call) and isinstance(a_.value.func, ast.Name) \
+                    and a_.value.func.id == "print":
+                return True, "only printed"
+            break
     if _is_fitness_dir_arg(n):
         return True, "direction argument of calculate_fitness"
     p = parent(n)
@@ -156,6 +162,9 @@ def run(prog: Program, res: Result) -> None:
                     ok = True       # annotation / import level
                 elif fi.qualname == f"{ABSTRACT}._fcn" or fi.qualname.startswith(f"{PKG}.hypertuner.HyperTuner.") or _in_debug_block(n):
                     ok = True
+                elif any(isinstance(a_, ast.Expr) and isinstance(a_.value, ast.Call) and isinstance(a_.value.func, ast.Name)
+                         and a_.value.func.id == "print" for a_ in ancestors(n) if isinstance(a_, ast.stmt)):
+                    ok = True       # only printed
                 elif isinstance(fi.node.returns, ast.AST) and any(x is n for x in ast.walk(fi.node.returns)):
                     ok = True
                 else:
